@@ -341,7 +341,8 @@ def r3_lifo(ck, rule="C04-R3"):
             for il in pt.iterator_loops(fn):
                 if il["head"] == h:
                     ity = il["iter_ty"]
-                    if "Rev<core::slice::iter::Iter<" in ity and "PatchStatus" in ity and il["callee"]["path"].endswith("Iterator::next"):
+                    if any(("Rev<" + base) in ity for base in ("core::slice::iter::Iter<", "alloc::vec::drain::Drain<", "alloc::vec::into_iter::IntoIter<")) \
+                            and "PatchStatus" in ity and il["callee"]["path"].endswith("Iterator::next"):
                         ok = True
                         detail = "reversed slice iterator (%s)" % ity
                     else:
@@ -388,6 +389,16 @@ def r3b_pop_after_rollback(ck, rule="C04-R3"):
                            "a file patch can be popped from the applied stack without having been rolled back in that iteration: its changes "
                            "stay in the in-memory files and are saved", fn.where(fn.blocks[pb]["term"]),
                            ok_detail="every path from the loop head to this pop crosses the rollback call")
+        # the same stack emptied through drain(..): every drained element must be rolled back in its iteration
+        for il in pt.iterator_loops(fn):
+            if not ("Drain<" in il["iter_ty"] and "PatchStatus" in il["iter_ty"]):
+                continue
+            n += 1
+            rb = {s.bb for s in cg.out[fid] if s.term is not None and s.callee in reach_abort and s.bb in il["body"]}
+            r = cfg.reachable(fn, [il["some_edge"][1]], blocked=rb)
+            ck.require(bool(rb) and il["head"] not in r, rule, "drained only with rollback in %s" % fn.id,
+                       "a file patch drained from the applied stack can reach the next iteration without having been rolled back",
+                       fn.where(il["next_term"]), ok_detail="every iteration of the drain loop crosses the rollback call")
     ck.floor(rule, "pops of applied file patches", n, 3)
 
 
